@@ -66,4 +66,16 @@ Definition x_settext (m : mode) (frame : list N) (idx : nat) (bs : list N) : N *
       | Err => (1, []) | Panic => (2, [])
       end
   end.
-Extraction "model.ml" x_rt x_cls x_vecrep x_settext.
+Require Import Gen.TrackTab Core.Vehicle.
+Definition x_tread (bs : list N) : option (list N) :=
+  match track_read bs with Ok i => assoc i track_code_tab | _ => None end.
+Definition x_rldec (b : N) : N * N := racelaps_of_u8 b.
+Definition x_rlenc (tag n : N) : N := racelaps_to_u8 tag n.
+Definition x_tflags (bs : list N) : N :=
+  match track_read bs with
+  | Ok i => (if existsb (N.eqb i) track_reverse_set then 1 else 0) + (if existsb (N.eqb i) track_open_set then 2 else 0)
+            + (match assoc i track_distance_tab with Some true => 4 | _ => 0 end)
+            + 8 * (match assoc i track_license_tab with Some l => l | None => 9 end)
+  | _ => 255
+  end.
+Extraction "model.ml" x_rt x_cls x_vecrep x_settext x_tread x_rldec x_rlenc x_tflags.
